@@ -60,10 +60,13 @@ def check_expr(case, res, vs):
             ex = s
     if ex is None:
         return vs, False
-    stype = ex.get("stype")
+    stype, _, sraw = (ex.get("stype") or "").partition("|")
     cls = m["tag"]
     if ex.get("r") == "ok":
-        dtype = ex.get("dtype")
+        dtype, _, draw = (ex.get("dtype") or "").partition("|")
+        if ex.get("val", "").startswith("N(") and "tuple" in stype and sraw == draw:
+            # a null value carries no tuple declaration to print: major, structure id and dimension are equal
+            dtype = stype
         if not opaque(stype) and stype != dtype:
             # a tuple whose static structure is known must match; a typed table with undefined element type is opaque
             vs.append(Violation("static-vs-dynamic:%s" % cls, "%s is compiled as %s but evaluates to %s (%s)" % (m["e"], stype, dtype, ex.get("val", "")[:80]), case))
